@@ -370,6 +370,67 @@ def juiceOverflows (A : Arith F) : Option F → List (Event F) → Bool
   | none, e :: es => juiceOverflows A (some e.time) es
   | some l, e :: es => i32SubOverflows (A.toI32 e.time) (A.toI32 l) || juiceOverflows A (some e.time) es
 
+
+/-! ## whole maps: raw objects → the descriptors of the counting models (`Model/Gradual.lean`) -/
+
+/-- What the two converters read of one hit object. -/
+inductive RawObj (F : Type) where
+  | circle
+  /-- spinner or hold note (osu!: a spinner; catch: a banana shower, which records nothing) -/
+  | spinner
+  | slider (s : SliderIn F)
+
+/-- `JuiceStream::new`: the `record_*` calls of one slider. -/
+def juiceStream (A : Arith F) (fuel : Nat) (s : SliderIn F) : Outcome (List CatchEvent) :=
+  match (catchParams A s).events A fuel with
+  | .clampPanic => .clampPanic
+  | .outOfFuel => .outOfFuel
+  | .ok evs =>
+    match juiceRecords A fuel none evs with
+    | none => .outOfFuel
+    | some r => .ok r
+
+/-- catch `convert_objects`: the `record_*` calls of the whole map in generation order
+(`Fruit::new` records one fruit, `BananaShower::new` nothing). -/
+def catchMapEvents (A : Arith F) (fuel : Nat) : List (RawObj F) → Outcome (List CatchEvent)
+  | [] => .ok []
+  | o :: os =>
+    let first : Outcome (List CatchEvent) :=
+      match o with
+      | .circle => .ok [.fruit]
+      | .spinner => .ok []
+      | .slider s => juiceStream A fuel s
+    match first, catchMapEvents A fuel os with
+    | .ok a, .ok b => .ok (a ++ b)
+    | .clampPanic, _ => .clampPanic
+    | .outOfFuel, _ => .outOfFuel
+    | .ok _, .clampPanic => .clampPanic
+    | .ok _, .outOfFuel => .outOfFuel
+
+/-- `OsuObject::new` for one slider: the descriptor of the counting model. -/
+def osuSlider (A : Arith F) (fuel : Nat) (s : SliderIn F) : Outcome Rosu.Gradual.OsuObj :=
+  let p := osuParams A s
+  match p.events A fuel with
+  | .clampPanic => .clampPanic
+  | .outOfFuel => .outOfFuel
+  | .ok evs => .ok (osuSliderObj A p evs)
+
+/-- osu! `convert_objects`: one descriptor per hit object. -/
+def osuMapObjs (A : Arith F) (fuel : Nat) : List (RawObj F) → Outcome (List Rosu.Gradual.OsuObj)
+  | [] => .ok []
+  | o :: os =>
+    let first : Outcome Rosu.Gradual.OsuObj :=
+      match o with
+      | .circle => .ok ⟨.circle, 0, 0⟩
+      | .spinner => .ok ⟨.spinner, 0, 0⟩
+      | .slider s => osuSlider A fuel s
+    match first, osuMapObjs A fuel os with
+    | .ok a, .ok b => .ok (a :: b)
+    | .clampPanic, _ => .clampPanic
+    | .outOfFuel, _ => .outOfFuel
+    | .ok _, .clampPanic => .clampPanic
+    | .ok _, .outOfFuel => .outOfFuel
+
 /-! ## exact rational arithmetic -/
 
 /-- `x as i32` on an exact value: truncation toward zero, saturating. -/
